@@ -991,6 +991,11 @@ class PyEval(MiniEval):
             if isinstance(recv, dict) and m == "clear" and not node.args:
                 recv.clear()
                 return None
+            if fn in ("re.split", "re.findall", "re.sub", "re.fullmatch", "re.match", "re.search") and not node.keywords and all(isinstance(x, (str, int)) for x in A()) \
+                    and (fn in ("re.split", "re.findall", "re.sub") or True):
+                # pure functions of the standard library on concrete strings (match objects: only their truth is modelled)
+                res = getattr(re, fn[3:])(*A())
+                return res if fn in ("re.split", "re.findall", "re.sub") else (res is not None)
             if fn == "dict.fromkeys" and 1 <= len(node.args) <= 2 and isinstance(A()[0], (list, tuple, dict)):
                 return dict.fromkeys(list(A()[0]), *(A()[1:]))
             if isinstance(recv, (list, tuple)) and m in ("index", "count") and len(node.args) == 1 and not node.keywords:
@@ -1101,6 +1106,11 @@ class PyEval(MiniEval):
             if len(node.args) == 2:
                 return A()[1]
             raise Raised("StopIteration", "StopIteration")
+        if fn == "int" and len(node.args) == 1 and not node.keywords and isinstance(A()[0], (str, int, bool)) and not isinstance(A()[0], float):
+            try:
+                return int(A()[0])
+            except ValueError as ex:
+                raise Raised(str(ex), "ValueError") from None
         if fn == "len" and len(node.args) == 1:
             v = A()[0]
             if isinstance(v, (list, tuple, str, dict, set, frozenset)):
